@@ -46,6 +46,7 @@ type vpC02Scn struct {
 	Proto10     bool // R1 is an HTTP/1.0 request with Connection: keep-alive
 	Method      string // R1's method: POST (default), or GET / HEAD / PUT carrying the same framed body
 	GetOnly     bool   // Server.GetOnly (only drawn together with GET / HEAD)
+	Tmo         bool   // R1's handler ends by answering through ctx.TimeoutErrorWithCode (the server continues on a fresh RequestCtx)
 }
 
 func (s vpC02Scn) r1() string {
@@ -56,8 +57,8 @@ func (s vpC02Scn) r1() string {
 }
 
 func (s vpC02Scn) String() string {
-	return fmt.Sprintf("stream=%v rmu=%v maxbody=%d chunked=%v pad=%d tail=%d chunks=%v handler=%s readn=%d expect=%q continueH=%q expectH=%q code=%d garbage=%q plan=%v r2body=%v http10=%v method=%s getonly=%v",
-		s.Stream, s.RMU, s.MaxBody, s.Chunked, s.Pad, s.Tail, s.ChunkAt, s.Handler, s.ReadN, s.Expect, s.ContinueH, s.ExpectH, s.ExpectCode, s.Garbage, s.Plan, s.R2Body, s.Proto10, s.r1(), s.GetOnly)
+	return fmt.Sprintf("stream=%v rmu=%v maxbody=%d chunked=%v pad=%d tail=%d chunks=%v handler=%s readn=%d expect=%q continueH=%q expectH=%q code=%d garbage=%q plan=%v r2body=%v http10=%v method=%s getonly=%v tmo=%v",
+		s.Stream, s.RMU, s.MaxBody, s.Chunked, s.Pad, s.Tail, s.ChunkAt, s.Handler, s.ReadN, s.Expect, s.ContinueH, s.ExpectH, s.ExpectCode, s.Garbage, s.Plan, s.R2Body, s.Proto10, s.r1(), s.GetOnly, s.Tmo)
 }
 
 type vpC02Result struct {
@@ -121,6 +122,9 @@ func vpC02Run(s vpC02Scn) vpC02Result {
 			}
 			mu.Unlock()
 			ctx.SetBodyString("done " + d)
+			if s.Tmo && string(ctx.Path()) == "/r1" {
+				ctx.TimeoutErrorWithCode("timed out "+d, StatusServiceUnavailable)
+			}
 		},
 	}
 	if s.ContinueH != "" {
@@ -351,6 +355,7 @@ func vpC02Gen(t *rapid.T) vpC02Scn {
 	s.R2Body = rapid.Bool().Draw(t, "r2body")
 	s.Proto10 = rapid.IntRange(0, 4).Draw(t, "http10") == 0
 	// a body is framed by Content-Length / Transfer-Encoding whatever the method is
+	s.Tmo = rapid.IntRange(0, 4).Draw(t, "tmo") == 0
 	s.Method = rapid.SampledFrom([]string{"POST", "POST", "POST", "PUT", "GET", "GET", "HEAD"}).Draw(t, "method")
 	if s.Method == "GET" || s.Method == "HEAD" {
 		s.GetOnly = rapid.Bool().Draw(t, "getonly")
